@@ -33,6 +33,7 @@ def run(ctx):
             peers.append(base)
     peers += [g.peer() for _ in range(60 if q else 2000)]
     recs = reportfam.standard(ctx, 0, peers=peers, parts=('items', 'json'))
+    recs += reportfam.cli_records(ctx, rng.sample(peers, min(len(peers), 16 if q else 300)), parts=('items', 'json'))   # end to end, both roles
     seen = {}
     nontriv = set()
     n_unknown = 0
